@@ -204,6 +204,7 @@ func c11Faults() []c11Fault {
 		{"no-validations", "profile: x\n", okD, "ProfileParsing", false},
 		{"missing-targetClass", "profile: x\nviolation: [v]\nvalidations:\n  v:\n    propertyConstraints:\n      ex.p: {minCount: 1}\n", okD, "ProfileParsing", false},
 		{"unparsable-path", "profile: x\nprefixes: {ex: http://ex.org/}\nviolation: [v]\nvalidations:\n  v:\n    targetClass: ex.T\n    propertyConstraints:\n      \"(ex.p\": {minCount: 1}\n", okD, "ProfileParsing", false},
+		{"parser-panics-on-complex-key", "profile: x\nprefixes: {ex: http://ex.org/}\nviolation: [v]\nvalidations:\n  v:\n    targetClass: ex.T\n    propertyConstraints:\n      ? [a, b]\n      : {minCount: 1}\n", okD, "ProfileParsing", false},
 		{"unknown-prefix", "profile: x\nviolation: [v]\nvalidations:\n  v:\n    targetClass: nope.T\n    propertyConstraints:\n      nope.p: {minCount: 1}\n", okD, "RegoGeneration", false},
 		{"rego-does-not-compile", "profile: x\nprefixes: {ex: http://ex.org/}\nviolation: [v]\nvalidations:\n  v:\n    targetClass: ex.T\n    rego: \"this is ( not rego\"\n", okD, "RegoCompilation", false},
 		{"denied-builtin", "profile: x\nprefixes: {ex: http://ex.org/}\nviolation: [v]\nvalidations:\n  v:\n    targetClass: ex.T\n    rego: |\n      r = http.send({\"method\":\"get\",\"url\":\"http://127.0.0.1:1/\"})\n      $result = true\n", okD, "RegoCompilation", false},
